@@ -259,6 +259,14 @@ func ruleC13F2(r *Run, le *LockEngine) {
 		})
 	}
 	scan(w, nil)
+	if len(ops) == 0 {
+		// the whole body is a function literal handed to a lock helper (withWriteLock(func() error {…}))
+		for _, an := range w.AnonFuncs {
+			if len(findCalls(an, false, "/transport/websocket.Conn.Writer")) > 0 {
+				scan(an, nil)
+			}
+		}
+	}
 	ok := len(ops) >= 3
 	for _, o := range ops {
 		if _, isDefer := o.(*ssa.Defer); isDefer {
@@ -270,6 +278,13 @@ func ruleC13F2(r *Run, le *LockEngine) {
 		for k, m := range h {
 			if m == modeW && strings.HasPrefix(k, o.Parent().Params[0].Name()+".") {
 				found = true
+			}
+		}
+		if !found && o.Parent() != w && o.Parent().Parent() == w {
+			for k, m := range le.heldWhereInvoked(o.Parent()) {
+				if m == modeW && strings.HasPrefix(k, w.Params[0].Name()+".") {
+					found = true
+				}
 			}
 		}
 		if site, via := viaCall[o]; via {
@@ -776,6 +791,14 @@ func ruleC13F12(r *Run) {
 				}
 			}
 		})
+	}
+	if acq == nil {
+		// in a function literal of Write (the body handed to a lock helper): the literal's returns are the paths
+		for _, an := range fn.AnonFuncs {
+			if a := findAcq(an); a != nil && acq == nil {
+				acq, fn = a, an
+			}
+		}
 	}
 	if acq == nil {
 		r.Undecided(name+" writer acquisition", "no call of Conn.Writer found")
